@@ -1,6 +1,6 @@
 #!/bin/bash
 # seedtest.sh <patch.diff> <check-id>... : apply a seeded change to /repo, run the checks (quick), undo.
-patch=$1; shift
+patch=$(readlink -f "$1"); shift
 cd /verif
 git -C /repo diff --quiet || { echo "/repo dirty"; exit 2; }
 git -C /repo apply "$patch" || { echo "patch does not apply"; exit 2; }
